@@ -58,6 +58,7 @@ type c03Shape struct {
 	Action  bool
 	Flat    bool // all group handlers on one Group instead of nested groups
 	Late    bool // the last application middleware and the action are installed only after the application has served requests
+	Swap    bool // the application first serves with as many do-nothing middleware, which Handlers() then replaces by the real ones
 }
 
 func (s c03Shape) n() int {
@@ -69,7 +70,7 @@ func (s c03Shape) n() int {
 }
 
 func (s c03Shape) String() string {
-	return fmt.Sprintf("mw=%d group=%d route=%d action=%v flat=%v late=%v", s.M, s.G, s.R, s.Action, s.Flat, s.Late)
+	return fmt.Sprintf("mw=%d group=%d route=%d action=%v flat=%v late=%v swap=%v", s.M, s.G, s.R, s.Action, s.Flat, s.Late, s.Swap)
 }
 
 type c03Ev struct {
@@ -138,8 +139,15 @@ func c03Build(s c03Shape, strMask int) *c03World {
 		return h
 	}
 	var lateMW flamego.Handler
+	var realMW []flamego.Handler
 	for i := 0; i < s.M; i++ {
 		h := next()
+		if s.Swap {
+			realMW = append(realMW, h)
+			// a stand-in that must never run once the real middleware has been installed
+			w.f.Use(func(c flamego.Context) { w.trace = append(w.trace, c03Ev{K: 'E', I: 90}) })
+			continue
+		}
 		if s.Late && i == s.M-1 {
 			lateMW = h
 			continue
@@ -182,6 +190,17 @@ func c03Build(s c03Shape, strMask int) *c03World {
 			w.path += fmt.Sprintf("/g%d", d)
 		}
 		w.path += "/x"
+	}
+	if s.Swap {
+		w.prog = make([]c03Beh, s.n())
+		for i := 0; i < 2; i++ {
+			func() {
+				defer func() { _ = recover() }()
+				w.f.ServeHTTP(&c01Spy{hdr: http.Header{}}, newReq("GET", w.path))
+			}()
+		}
+		w.trace = w.trace[:0]
+		w.f.Handlers(realMW...)
 	}
 	if s.Late {
 		// serve before the configuration is complete, then complete it
@@ -231,7 +250,7 @@ func c03Accept(total int, tr []c03Ev, gotStatus int, gotBody string) (bad, kind 
 		case 'E':
 			if ev.I != started {
 				if ev.I == 90 {
-					return fmt.Sprintf("%s: a handler of a sibling route ran in this route's chain", at), "foreign-handler"
+					return fmt.Sprintf("%s: a handler that does not belong to this chain ran (a sibling route's handler, or middleware that had been replaced)", at), "foreign-handler"
 				}
 				if ev.I < started {
 					return fmt.Sprintf("%s: handler %d started again (at most once)", at, ev.I), "started-twice"
@@ -399,6 +418,9 @@ func c03Shapes(maxN int, thorough bool) []c03Shape {
 					}
 					if (m >= 1 || act) && (thorough || n <= 3) {
 						out = append(out, c03Shape{M: m, G: g, R: r, Action: act, Late: true})
+					}
+					if m >= 1 && (thorough || n <= 3) {
+						out = append(out, c03Shape{M: m, G: g, R: r, Action: act, Swap: true})
 					}
 				}
 			}
